@@ -25,7 +25,7 @@ TRUSTED = [
     'the oracle uses its own tree evaluator for the generated path subset',
     'models owned by other properties (tied there), well-nestedness stated in Props/C20.lean, nesting in -> out checked by the '
     'oracle on the real code: HTMLSanitizer (C06), Translator (C19), EmptyTagFilter / WhitespaceFilter / NamespaceFlattener '
-    '(partial: namespace-free / single-namespace forests) / DocTypeInserter (C09/C08/C02)',
+    '(full on the total model of C02; partial on the chain model of C08) / DocTypeInserter (C09/C08/C02)',
     'the push formulation of the pulled generator pipeline (Model/TfLazy.lean pushItem: an item yielded by link k is processed '
     'by link k+1 before k continues); the stage-wise composition (lazy_agrees_stagewise) and the link-by-link trace semantics '
     '(lazy_trace_semantics) are theorems about it, and the driver compares all three on every generated chain',
